@@ -566,11 +566,11 @@ class ImzML(object):
                 external_binary=fp,
             )
             idx = np.searchsorted(mz_array, target_windows.flat)
-            # faster than np.clip
-            idx[idx > intensity_array.size - 1] = intensity_array.size - 1
-            data[spectra.y - 1, spectra.x - 1] = np.add.reduceat(intensity_array, idx)[
-                ::2
-            ]
+            # a trailing zero lets windows end after the last peak
+            sums = np.add.reduceat(np.append(intensity_array, 0), idx)[::2]
+            # reduceat returns the value at idx for empty ranges, these must be zero
+            sums[idx[::2] >= idx[1::2]] = 0
+            data[spectra.y - 1, spectra.x - 1] = sums
         return data
 
     def binned_masses(
